@@ -25,6 +25,7 @@ import (
 
 	"github.com/evolbioinfo/goalign/align"
 
+	"verif/lib/conc"
 	"verif/lib/gen"
 	"verif/lib/h"
 	"verif/lib/mon"
@@ -1177,6 +1178,7 @@ func main() {
 	mon.Floor("faults:kind:1", 20)
 	mon.Floor("faults:kind:2", 5)
 	cliFloors()
+	mon.Floor("concurrent:calls", 500)
 	mon.Main("C16", []mon.Sub{
 		{Name: "witness", Quick: 3, Thorough: 3, Run: runWitness},
 		{Name: "phase", Quick: 3000, Thorough: 150000, Run: runPhase},
@@ -1184,6 +1186,7 @@ func main() {
 		{Name: "noref", Quick: 600, Thorough: 30000, Run: runNoRef},
 		{Name: "sched", Quick: 240, Thorough: 12000, Race: true, Run: runSched},
 		{Name: "faults", Quick: 18 * 24, Thorough: 18 * 24 * 10, Race: true, Run: runFaults},
+		{Name: "concurrent", Quick: 64, Thorough: 1200, Race: true, Run: func(c *mon.Case) { conc.Run(c, "phase") }},
 		{Name: "cli", Quick: 150, Thorough: 1500, Serial: true, Run: runCli},
 	})
 }
